@@ -99,6 +99,8 @@ func BuildData(d DataSpec) any {
 		}
 	case "nil":
 		return nil
+	case "emptymap":
+		return map[string]any{}
 	case "struct":
 		return pd
 	case "ptr":
